@@ -10,6 +10,7 @@ import (
 
 	"verif/core"
 	"verif/fenv"
+	"verif/simdisk"
 )
 
 // HistCfg parameterises a random history on one file.
@@ -32,6 +33,9 @@ type HistCfg struct {
 	FreeBias   int  // percentage boost for frees
 	GrowMeta   bool
 	KeepSmall  int // try to keep the number of live pages below this bound (0 = none)
+	WritePct   int // percentage of freshly allocated pages that are written at once (default 80)
+	MaxExtra   uint64 // bytes added to the max size (max size not a multiple of the page size)
+	FailCommitPct int // percentage of commits that hit an injected write/sync failure
 	OnTxEnd    func(e *fenv.Env, i int)
 	BeforeTxEnd func(e *fenv.Env, i int) bool // return false to leave the transaction open (caller ends it)
 }
@@ -42,7 +46,11 @@ func (c HistCfg) String() string {
 }
 
 func (c HistCfg) options() txfile.Options {
-	return txfile.Options{PageSize: c.PageSize, MaxSize: c.MaxPages * uint64(c.PageSize), InitMetaArea: c.InitMeta, Prealloc: c.Prealloc}
+	maxSize := c.MaxPages * uint64(c.PageSize)
+	if maxSize > 0 {
+		maxSize += c.MaxExtra
+	}
+	return txfile.Options{PageSize: c.PageSize, MaxSize: maxSize, InitMetaArea: c.InitMeta, Prealloc: c.Prealloc}
 }
 
 func sortedKeys(m map[uint64]bool) []uint64 {
@@ -87,10 +95,27 @@ func RunTxBody(e *fenv.Env, rng *rand.Rand, c HistCfg) {
 		case r < 25 && !tooBig || len(live) == 0:
 			n := 1 + rng.Intn(max(1, c.BigAlloc))
 			ids, err := e.Alloc(n)
+			wp := c.WritePct
+			if wp == 0 {
+				wp = 80
+			}
 			if err == nil {
 				for _, id := range ids {
-					if rng.Intn(10) < 8 {
+					if rng.Intn(100) < wp {
 						e.Set(id, []int{4, 4, 4, 2, 1}[rng.Intn(5)])
+					}
+				}
+				if rng.Intn(100) >= wp {
+					// free some of the fresh pages again and allocate once more
+					for _, id := range ids {
+						if !e.TxDirty[id] && rng.Intn(2) == 0 {
+							e.Free(id)
+						}
+					}
+					if rng.Intn(2) == 0 {
+						if ids2, err := e.Alloc(1 + rng.Intn(2)); err == nil && rng.Intn(2) == 0 {
+							e.Set(ids2[0], 4)
+						}
 					}
 				}
 			}
@@ -167,6 +192,28 @@ func RunHistory(c HistCfg) (tr *core.Trace, env *fenv.Env) {
 		}
 		if rng.Intn(100) < c.AbortPct {
 			e.Rollback(rng.Intn(2) == 0)
+		} else if c.FailCommitPct > 0 && rng.Intn(100) < c.FailCommitPct {
+			// the k-th write or sync of this commit fails (burst of 1..3 calls)
+			// (never the final sync: a failed final sync may legitimately leave the new
+			// state on disk - that case belongs to C08)
+			k, burst, kind := rng.Intn(4), 1+rng.Intn(3), []string{"w", "w", "sync"}[rng.Intn(3)]
+			if kind == "sync" {
+				k, burst = 0, 1
+			}
+			n := 0
+			e.Disk.Fault = func(op string, nth, idx int) simdisk.FaultMode {
+				if op != kind {
+					return simdisk.NoFault
+				}
+				n++
+				if n > k && n <= k+burst {
+					return simdisk.FailBefore
+				}
+				return simdisk.NoFault
+			}
+			e.Emit(core.Event{"ev": "Note", "what": "fault-armed", "kind": kind, "k": k, "burst": burst})
+			e.Commit()
+			e.Disk.Fault = nil
 		} else {
 			e.Commit()
 		}
@@ -212,7 +259,7 @@ func RejectProps(rj core.Reject, faults bool) []string {
 			add("C04")
 		case "Partition", "MetaAccounting":
 			add("C11", "C04")
-		case "Conservation", "StatsTruthful":
+		case "Conservation", "StatsTruthful", "ExtentBound":
 			add("C11")
 		case "HeaderAgrees":
 			add("C03")
